@@ -12,7 +12,7 @@ RULE = ('FASTA files generated from (header, sequence, line width) records; ever
         '(exhaustive for the small grid), library-built and supplied (faidx-style) index; non-trivial = some record '
         'spans more than one line, or an interval endpoint lies on/next to a line break')
 EXHAUSTIVE = {'quick': False, 'thorough': False}
-TIE = 'correspondence (model_index, fetch_contig, fetch_interval evaluated in Coq on the file bytes) + translator bridge for the offset arithmetic'
+TIE = 'translator+correspondence (Gen/C17.v regenerated from indexed_fasta.py, Bridge/C17.v; model_index, fetch_contig, fetch_interval evaluated in Coq on the file bytes)'
 ASSUMPTIONS = ['A-IO: file.seek/read/readinto on a regular file return the requested bytes',
                'interval fetch is exercised on LF files only (the property does not quantify over CRLF for random access); CRLF files are used for the index and whole-contig fetch']
 PARTIAL = []
